@@ -16,6 +16,20 @@ T = {
          "Model/Conv.lean is hand-written (tied by correspondence: random layouts, exhaustive narrow fields); zero masks are outside the domain; order independence with blob fields is covered by correspondence only"),
  "C14": ("kernel-decided theorems over the regenerated opcode/service-action/status tables against the T10 oracle, cross-set consistency, and cdb_length_is_sam for all 256 operation codes; exhaustive correspondence of init_cdb",
          "Std/T10.lean is from knowledge; names without an oracle entry are counted, not judged; initCdbLen is a hand model tied exhaustively over 0..255"),
+ "C07": ("Lean theorems over the execute models of both transports: returns only on GOOD (all status values, all sense, raw sense on/off), CHECK CONDITION raises CheckCondition built from the sense sent now, named errors, any position in any sequence (induction), facade passes errors on without decoding; exhaustive correspondence over all 256 status bytes",
+         "the external bindings are stand-ins embodying the stated contract (sgio: CheckConditionError(sense)/UnspecifiedError; iscsi: task.status/raw_sense); what the real C bindings do is not verified; Exec model hand-written, tied exhaustively"),
+ "C08": ("Lean theorems never_raises and reports_spc_fields for every non-empty sense buffer (any response code, length, contents), T10 texts of ~80 well-known ASC/ASCQ codes decided on the regenerated table; correspondence incl. all 65536 pairs",
+         "sense layout/text tables regenerated from source; Std/Sense.lean text list is partial (remaining table entries modelled, not verified); length-0 buffers outside the property"),
+ "C13": ("Lean theorems about the facade method model for all behaviours of constructor/device/decoder + kernel-decided facts about the 38 methods (shape, documented class, opcode source, by-name forwarding) on the description regenerated from scsi.py; correspondence over a recording device with every subset of optional kwargs and failure injection",
+         "the facade model is abstract (construct/execute/unmarshall outcomes as parameters); translator extracts events in source order; buffer contents: one conformant response per decoding method"),
+ "C15": ("Lean invariant proved by induction over event histories of any length (sent only through an open handle on the current node, superseded handles closed once, close failure still reopens, vanished node is an error, detection off keeps the handle, released exactly once); correspondence over a virtual OS",
+         "inode reuse by the OS is not modelled (fresh inode numbers assumed); a failing close() is assumed to release the descriptor; Handle model hand-written, tied by random event sequences"),
+ "C16": ("Lean theorems: selection for all 256 first INQUIRY bytes, every set offers the primary commands with T10 opcodes (decided on regenerated tables), one INQUIRY per attach, no leak between devices for every attach history (induction); exhaustive correspondence on both transports",
+         "pdtChain is a hand mirror of __init_opcode tied exhaustively over 256 values; 02h/09h→ssc and 03h→spc are allowed by the property"),
+ "C18": ("Lean theorems: refinement of add/remove to an ordinary dictionary for all operation sequences (induction), KeyError refusals, reverse lookup laws, isolation between enumerations for all interleaved histories; correspondence with the real Enum",
+         "domain: plain names (no '__' prefix, no metaclass attribute names) and non-callable values; Python == on values is a parameter (generator guarantees token equality); EnumM model hand-written"),
+ "C19": ("Lean theorems: init_device refused iff no (prefix, binding) match, no effect on refusal, exact path/mode/URL/initiator, for all device strings and all four configurations; the import half is decided by exhaustive execution in four fresh interpreters",
+         "Python's import machinery is not modelled (enumerated instead); presence of a binding = importable stand-in module"),
  "C17": ("Lean theorems: zero block size refused for all other arguments (guards regenerated from source), ATA refusal iff condition, refused opcode groups for all 256 values, unknown PR IN service actions for all integers; facade-level observation that nothing is sent",
          "EXTENDED COPY / TransportID refusals are currently decided on the implementation by enumeration of invalid-input classes (their Lean model comes with C05); facade observed through a recording device"),
 }
